@@ -347,3 +347,39 @@ REG.contract("dpapi_ng._client.ncrypt_unprotect_secret", props=["C17", "C10", "C
 REG.contract("dpapi_ng._client.async_ncrypt_unprotect_secret", props=["C17", "C10", "C04", "C01"])(_api("unprotect", "async"))
 REG.contract("dpapi_ng._client.ncrypt_protect_secret", props=["C17", "C10", "C01"])(_api("protect", "sync"))
 REG.contract("dpapi_ng._client.async_ncrypt_protect_secret", props=["C17", "C10", "C01"])(_api("protect", "async"))
+
+
+# ================================================================================================ C01: the round-trip theorem
+@REG.lemma("round_trip", props=["C01"])
+def round_trip(c):
+    """unprotect(relayout(protect(P))) == P. A lemma over postconditions proved elsewhere (named on each hypothesis):
+      H1  _encrypt_blob (C19/C06):  blob = LAYOUT(kid(flags,l0,l1,l2,rkid,ki,names), sid, KW(kek_e, cek), GCMENC(cek, nonce, P), GCMPARAMS(nonce))
+                                     with kek_e = KDF(h, key.l2_key, label, ki, 32)                          (nonce mode)
+      H2  _get_protection_gke_from_cache (C09/C01) or A-DC:  key.l2_key = L2K(true chain; l0,l1,l2)
+      H3  DPAPINGBlob.unpack (C06):  unpack(LAYOUT(x, either layout)) = x
+      H4  KeyCache._get_key (C10) or A-DC:  the decryption side holds a valid seed of the same true chain covering (l1,l2)
+      H5  get_kek (C03):  kek_d = KDF(h, L2K(true chain; kid.l0, kid.l1, kid.l2), label, kid.key_info, 32)
+      H6  _decrypt_blob (C04):  result = GCMDEC(KWU(kek_d, enc_cek), nonce from the parameters, enc_content) when both verify
+      A-KW, A-GCM: functional inverses.
+    Public-key mode replaces H1/H5 by new_kek / get_kek public-key postconditions and lemma kek_agree (C03)."""
+    from .c_kek import kdf_value, lit
+    from .externs_crypto import GCMDEC, GCMENC, GCMOK, KW, KWOK, KWU
+    from .spec import L2K, LABEL
+
+    h = z3.Const("h", Ref)
+    base, g = fresh_bytes("true_base"), fresh_bytes("rkid")
+    l0, l1, l2 = z3.Ints("l0 l1 l2")
+    cek, nonce, ki, P = (fresh_bytes(n) for n in ("cek", "nonce", "key_info", "P"))
+    l2k = L2K(h, base, g, l0, l1, l2)
+    c.assume(blen(l2k) == 64)
+    key_l2 = fresh_bytes("protect_side_l2_key")
+    c.assume(key_l2 == l2k)  # H2
+    kek_e = kdf_value(c, h, atom(key_l2), lit(c, LABEL), atom(ki), 32)  # H1
+    enc_cek = KW(R.to_term(c.ctx, kek_e.rope), cek)
+    enc_content = GCMENC(cek, nonce, P)
+    # H3: the decoded blob has the same fields; H4+H5: the decryption side derives the KEK from the same chain value
+    kek_d = kdf_value(c, h, atom(l2k), lit(c, LABEL), atom(ki), 32)
+    c.prove("both-sides-hold-the-same-kek", c.eq(kek_e, kek_d))
+    kd = R.to_term(c.ctx, kek_d.rope)
+    c.prove("unwrap-verifies-and-returns-the-cek", z3.And(KWOK(kd, enc_cek), KWU(kd, enc_cek) == cek))
+    c.prove("gcm-verifies-and-returns-the-plaintext", z3.And(GCMOK(KWU(kd, enc_cek), nonce, enc_content), GCMDEC(KWU(kd, enc_cek), nonce, enc_content) == P))  # H6
